@@ -5,7 +5,10 @@ import (
 	"fmt"
 	"net"
 	"os"
+	"runtime"
 	"sort"
+	"strings"
+	"sync"
 
 	"google.golang.org/grpc"
 	"google.golang.org/grpc/credentials/insecure"
@@ -33,7 +36,7 @@ func runCase(c kase) *runState {
 	func() {
 		defer func() {
 			if r := recover(); r != nil {
-				st.add("panic", "caller", fmt.Sprintf("library panicked on the calling goroutine: %v", r))
+				st.add("panic", "caller", "", fmt.Sprintf("library panicked on the calling goroutine: %v", r))
 			}
 		}()
 		switch c.Base {
@@ -64,9 +67,9 @@ func runCase(c kase) *runState {
 					err = e
 				}
 			}()
-			// three guarded waits inside drive, plus slack
+			// the guarded waits inside drive, plus slack
 			ok := false
-			for i := 0; i < 6 && !ok; i++ {
+			for i := 0; i < 8 && !ok; i++ {
 				ok = wait(done)
 			}
 			if !ok {
@@ -78,11 +81,16 @@ func runCase(c kase) *runState {
 			st.fail("unknown base " + c.Base)
 		}
 	}()
+	st.mu.Lock()
+	defer st.mu.Unlock()
 	if st.internal == "" && st.phases == 0 {
-		st.fail("the handler never ran")
+		st.internal = "the handler never ran"
 	}
 	if st.internal == "" && c.IC && !st.icRan {
-		st.fail("the interceptor never ran")
+		st.internal = "the interceptor never ran"
+	}
+	if st.internal == "" && st.creds != nil && st.creds.calls == 0 {
+		st.internal = "the per-RPC credentials were never asked for metadata"
 	}
 	return st
 }
@@ -114,26 +122,51 @@ func newRefServer(ic bool) (*refServer, error) {
 }
 
 func (r *refServer) run(c kase) *runState {
-	st := newState(c, true)
-	r.e.cur = st
-	st.drive(r.cc, context.Background())
-	if st.internal == "" && st.phases == 0 {
-		st.fail("the handler never ran")
+	var st *runState
+	// a call with a short deadline may, on a busy machine, not reach the server in
+	// time: that says nothing, try again
+	for attempt := 0; attempt < 4; attempt++ {
+		st = newState(c, true)
+		r.e.cur = st
+		st.drive(r.cc, context.Background())
+		if st.internal == "" && st.phases == 0 {
+			st.fail("the handler never ran")
+		}
+		if st.internal == "" || c.end() != "deadline" {
+			break
+		}
 	}
 	return st
 }
 
 // ------------------------------------------------------------ grammar
 
-func enumerate(bases []string) []kase {
+func popcount(x int) int {
+	n := 0
+	for ; x != 0; x &= x - 1 {
+		n++
+	}
+	return n
+}
+
+type timing struct {
+	deadline bool
+	end      string
+}
+
+// contextGrammar: the nine layers fully crossed with everything that does not
+// need real time to pass.
+func contextGrammar(bases []string) []kase {
 	var out []kase
 	for _, base := range bases {
 		for _, ic := range []bool{false, true} {
 			for _, kind := range []string{"unary", "stream"} {
-				for _, dl := range []bool{false, true} {
-					for layers := 0; layers < 1<<len(layerNames); layers++ {
-						for _, order := range []string{"up", "down"} {
-							out = append(out, kase{Base: base, Layers: layers, Order: order, Deadline: dl, Kind: kind, IC: ic})
+				for _, tm := range []timing{{false, ""}, {true, ""}, {false, "return"}, {true, "return"}} {
+					for _, creds := range []string{"", "std"} {
+						for layers := 0; layers < 1<<len(layerNames); layers++ {
+							for _, order := range []string{"up", "down"} {
+								out = append(out, kase{Base: base, Layers: layers, Order: order, Deadline: tm.deadline, Kind: kind, IC: ic, End: tm.end, Creds: creds})
+							}
 						}
 					}
 				}
@@ -145,26 +178,163 @@ func enumerate(bases []string) []kase {
 	return out
 }
 
-func popcount(x int) int {
-	n := 0
-	for ; x != 0; x &= x - 1 {
+// deadlineGrammar: the caller's deadline passes while the handler runs. Every
+// case costs real time (the deadline has to pass), so the quick tier sweeps the
+// layer sets {none, each single layer, all nine} and the thorough tier takes all.
+func deadlineGrammar(bases []string, allLayers bool) []kase {
+	var sets []int
+	if allLayers {
+		for l := 0; l < 1<<len(layerNames); l++ {
+			sets = append(sets, l)
+		}
+	} else {
+		sets = append(sets, 0)
+		for i := range layerNames {
+			sets = append(sets, 1<<i)
+		}
+		sets = append(sets, 1<<len(layerNames)-1)
+	}
+	var out []kase
+	for _, base := range bases {
+		for _, ic := range []bool{false, true} {
+			for _, kind := range []string{"unary", "stream"} {
+				for _, creds := range []string{"", "std"} {
+					for _, layers := range sets {
+						for _, order := range []string{"up", "down"} {
+							out = append(out, kase{Base: base, Layers: layers, Order: order, Deadline: true, Kind: kind, IC: ic, End: "deadline", Creds: creds})
+						}
+					}
+				}
+			}
+		}
+	}
+	sort.SliceStable(out, func(i, j int) bool { return popcount(out[i].Layers) < popcount(out[j].Layers) })
+	return out
+}
+
+// mdGrammar: every triple (keys given to NewOutgoingContext, keys appended,
+// keys returned by the credentials or no credentials option at all) over the
+// three-key alphabet, both spellings, both stacking orders, swept around every
+// base case (base context, kind, interceptors, other layers none / all seven).
+func mdGrammar(bases []string) []kase {
+	others := []int{0, (1<<len(layerNames) - 1) &^ (bitOutgoingMD | bitOutgoingApp)}
+	n := 1 << len(mdAlphabet)
+	var out []kase
+	for _, base := range bases {
+		for _, ic := range []bool{false, true} {
+			for _, kind := range []string{"unary", "stream"} {
+				for _, other := range others {
+					for nw := 0; nw < n; nw++ {
+						for ap := 0; ap < n; ap++ {
+							for cr := -1; cr < n; cr++ {
+								for _, sp := range []string{"lower", "mixed"} {
+									if sp == "mixed" && nw == 0 && ap == 0 && cr <= 0 {
+										continue // no key at all: nothing to spell
+									}
+									for _, order := range []string{"up", "down"} {
+										c := kase{Base: base, Layers: other, Order: order, Kind: kind, IC: ic, Part: "md", MDNew: subsetName(nw), MDApp: subsetName(ap), Spelling: sp}
+										if nw != 0 {
+											c.Layers |= bitOutgoingMD
+										}
+										if ap != 0 {
+											c.Layers |= bitOutgoingApp
+										}
+										switch {
+										case cr == 0:
+											c.Creds = "empty"
+										case cr > 0:
+											c.Creds = subsetName(cr)
+										}
+										out = append(out, c)
+									}
+								}
+							}
+						}
+					}
+				}
+			}
+		}
+	}
+	sort.SliceStable(out, func(i, j int) bool { return mdSize(out[i]) < mdSize(out[j]) })
+	return out
+}
+
+func mdSize(c kase) int {
+	n := popcount(c.Layers)
+	for _, s := range []string{c.MDNew, c.MDApp, c.Creds} {
+		if s != "" && s != "empty" {
+			n += strings.Count(s, "+") + 1
+		}
+	}
+	if c.Spelling == "mixed" {
 		n++
 	}
 	return n
+}
+
+// ------------------------------------------------------------ running and grouping
+
+// outcome is what is kept of one case.
+type outcome struct {
+	c                  kase
+	findings           []finding
+	internal           string
+	phases             int
+	late               int
+	earlyLive, shared  bool
+	wantIn, credsWant  string
+	credsCalls, layers int
+}
+
+func summarize(c kase, st *runState) outcome {
+	o := outcome{c: c, findings: st.findings, internal: st.internal, phases: st.phases, late: st.lateLookups, earlyLive: st.earlyLive, shared: st.sharedSeen,
+		wantIn: mdString(st.wantIncoming)}
+	if st.creds != nil {
+		o.credsWant = mdString(st.credsWant)
+		o.credsCalls = st.creds.calls
+	}
+	return o
+}
+
+// runAll runs the cases on `workers` goroutines (every case has its own channel
+// and its own state; the verdicts do not depend on the number of workers) and
+// returns the outcomes in the order of the cases.
+func runAll(cases []kase, workers int) []outcome {
+	out := make([]outcome, len(cases))
+	var wg sync.WaitGroup
+	next := make(chan int, 256)
+	for w := 0; w < workers; w++ {
+		wg.Add(1)
+		go func() {
+			defer wg.Done()
+			for i := range next {
+				out[i] = summarize(cases[i], runCase(cases[i]))
+			}
+		}()
+	}
+	for i := range cases {
+		next <- i
+	}
+	close(next)
+	wg.Wait()
+	return out
 }
 
 // A clause that fails is reported once per (clause, RPC kind): the unary and the
 // streaming path build the handler context separately. The scope part says
 // where it shows: "handler" (the usual case; the interceptor, whose context the
 // handler's derives from, is then not reported separately), "interceptor-only",
-// "caller"; and base "any" when it already fails for a call made from a plain
-// context, "nested-only" when it needs a call made from inside another handler.
+// "caller"; base "any" when it already fails for a call made from a plain
+// context, "nested-only" when it needs a call made from inside another handler;
+// and, when the clause holds at handler entry and only fails later in the life
+// of the call, "when=" the earliest instant at which it was seen to fail.
 type group struct {
 	first  kase
 	detail string
 	n      int
 	wheres map[string]bool
 	plain  bool
+	rank   int
 }
 
 func groupKey(c kase, f finding) string { return f.Clause + "|kind=" + c.Kind }
@@ -182,6 +352,12 @@ func (g *group) fingerprint(key string) string {
 	if g.plain {
 		base = "any"
 	}
+	// clauses that are about one instant by definition (aliasing is probed while
+	// parked, cancellation after the cancel) carry no instant
+	clause := key[:strings.Index(key, "|")]
+	if g.rank > 0 && g.rank < len(instants) && !strings.HasPrefix(clause, "md-aliasing") && !strings.HasPrefix(clause, "cancel-") {
+		key += "|when=" + instants[g.rank]
+	}
 	return fmt.Sprintf("C10|%s|where=%s|base=%s", key, where, base)
 }
 
@@ -190,9 +366,39 @@ func inconclusive(msg string) {
 	os.Exit(2)
 }
 
+// selfTest: the metadata comparison must tell the ways in which credentials and
+// caller metadata can be combined wrongly.
+func selfTest() string {
+	ca := metadata.MD{"k": {"a1", "a2"}, "only": {"o"}}
+	cr := metadata.MD{"k": {"c"}, "cr-only": {"x"}}
+	for _, t := range []struct {
+		got  metadata.MD
+		want string
+	}{
+		{metadata.MD{"k": {"a1", "a2", "c"}, "only": {"o"}, "cr-only": {"x"}}, ""},
+		{metadata.MD{"k": {"c", "a1", "a2"}, "only": {"o"}, "cr-only": {"x"}, "user-agent": {"grpc"}}, ""},
+		{metadata.MD{"k": {"c"}, "only": {"o"}, "cr-only": {"x"}}, "caller-values-lost-on-credentials-key"},
+		{metadata.MD{"k": {"a2", "a1", "c"}, "only": {"o"}, "cr-only": {"x"}}, "caller-values-lost-on-credentials-key"},
+		{metadata.MD{"k": {"a1", "a2"}, "only": {"o"}, "cr-only": {"x"}}, "credentials-values-lost"},
+		{metadata.MD{"k": {"a1", "a2", "c"}, "only": {"o"}}, "credentials-values-lost"},
+		{metadata.MD{"k": {"a1", "a2", "c", "c"}, "only": {"o"}, "cr-only": {"x"}}, "extra-values"},
+		{metadata.MD{"k": {"a1", "a2", "c"}, "only": {"o", "o"}, "cr-only": {"x"}}, "mismatch"},
+		{metadata.MD{"k": {"a1", "a2", "c"}, "cr-only": {"x"}}, "mismatch"},
+	} {
+		if got := carried(t.got, ca, cr); got != t.want {
+			return fmt.Sprintf("self-test of the metadata oracle: carried(%s) = %q, want %q", mdString(t.got), got, t.want)
+		}
+	}
+	return ""
+}
+
 func main() {
 	rep := vlib.NewReporter("C10")
 	thorough := rep.Tier == "thorough"
+
+	if msg := selfTest(); msg != "" {
+		inconclusive(msg)
+	}
 
 	if p := common.Arg("replay"); p != "" {
 		var c kase
@@ -203,9 +409,9 @@ func main() {
 		if st.internal != "" {
 			inconclusive(st.internal)
 		}
-		fmt.Printf("replay: %s: handler phases completed %d/3, %d clause(s) violated\n", c, st.phases, len(st.findings))
+		fmt.Printf("replay: %s: handler phases completed %d/4, %d clause(s) violated\n", c, st.phases, len(st.findings))
 		for _, f := range st.findings {
-			fmt.Printf("  %s (%s): %s\n", f.Clause, f.Where, f.Detail)
+			fmt.Printf("  %s (%s, %s): %s\n", f.Clause, f.Where, f.When, f.Detail)
 		}
 		if len(st.findings) > 0 {
 			fmt.Printf("VIOLATION property=C10 replay=%s\n", p)
@@ -214,60 +420,127 @@ func main() {
 		os.Exit(0)
 	}
 
+	allBases := []string{"background", "in-unary-handler", "in-stream-handler"}
+
 	// the oracle against the standard transport (thorough only): must agree everywhere
 	refRuns := 0
 	if thorough {
+		var refCases []kase
+		refCases = append(refCases, contextGrammar([]string{"background"})...)
+		refCases = append(refCases, deadlineGrammar([]string{"background"}, false)...)
+		refCases = append(refCases, mdGrammar([]string{"background"})...)
+		var mu sync.Mutex
+		var problem string
+		var wg sync.WaitGroup
 		for _, ic := range []bool{false, true} {
-			r, err := newRefServer(ic)
-			if err != nil {
-				inconclusive("bufconn reference: " + err.Error())
-			}
-			for _, c := range enumerate([]string{"background"}) {
-				if c.IC != ic {
-					continue
+			ic := ic
+			wg.Add(1)
+			go func() {
+				defer wg.Done()
+				r, err := newRefServer(ic)
+				if err != nil {
+					mu.Lock()
+					problem = "bufconn reference: " + err.Error()
+					mu.Unlock()
+					return
 				}
-				st := r.run(c)
-				refRuns++
-				if st.internal != "" {
-					inconclusive("bufconn reference, " + c.String() + ": " + st.internal)
+				defer r.srv.Stop()
+				defer r.cc.Close()
+				for _, c := range refCases {
+					if c.IC != ic {
+						continue
+					}
+					st := r.run(c)
+					mu.Lock()
+					refRuns++
+					if problem == "" {
+						if st.internal != "" {
+							problem = "bufconn reference, " + c.String() + ": " + st.internal
+						} else if len(st.findings) > 0 {
+							f := st.findings[0]
+							problem = fmt.Sprintf("the oracle disagrees with grpc-go over bufconn on %s: %s (%s, %s): %s", c, f.Clause, f.Where, f.When, f.Detail)
+						}
+					}
+					stop := problem != ""
+					mu.Unlock()
+					if stop {
+						return
+					}
 				}
-				if len(st.findings) > 0 {
-					inconclusive(fmt.Sprintf("the oracle disagrees with grpc-go over bufconn on %s: %s (%s): %s", c, st.findings[0].Clause, st.findings[0].Where, st.findings[0].Detail))
-				}
-			}
-			r.cc.Close()
-			r.srv.Stop()
+			}()
+		}
+		wg.Wait()
+		if problem != "" {
+			inconclusive(problem)
 		}
 	}
 
+	ctxCases := contextGrammar(allBases)
+	dlCases := deadlineGrammar(allBases, thorough)
+	mdCases := mdGrammar(allBases)
+	cases := append(append(append([]kase{}, ctxCases...), dlCases...), mdCases...)
+
+	workers := runtime.NumCPU()
+	if workers > 16 {
+		workers = 16
+	}
+	if workers < 2 {
+		workers = 2
+	}
+	outs := runAll(cases, workers)
+
 	evals := 0
 	distinct := map[string]bool{}
+	byEnd := map[string]int{}
+	lateLookups, credsCases, sharedJoined, dlLive := 0, 0, 0, 0
 	var samples []interface{}
+	sampled := map[string]bool{}
 	groups := map[string]*group{}
 	var order []string
-	for _, c := range enumerate([]string{"background", "in-unary-handler", "in-stream-handler"}) {
+	for _, o := range outs {
+		c := o.c
 		evals++
-		st := runCase(c)
-		if st.internal != "" {
-			inconclusive(c.String() + ": " + st.internal)
+		if o.internal != "" {
+			inconclusive(c.String() + ": " + o.internal)
 		}
-		if st.phases == 3 && (c.Layers != 0 || c.Base != "background") {
+		if o.phases == 4 && (c.Layers != 0 || c.Base != "background" || c.Creds != "") {
 			distinct[c.String()] = true
+			byEnd[c.end()]++
 		}
-		if len(samples) < 6 && (c.Layers == 0 || c.Layers == 1<<len(layerNames)-1) && c.Order == "up" && c.Deadline && c.IC && c.Kind == "stream" {
-			samples = append(samples, map[string]interface{}{"case": c, "layers": c.layerList(), "handler_phases_completed": st.phases,
-				"incoming_md_expected_in_handler": mdString(st.wantIncoming), "clauses_violated": len(st.findings)})
+		lateLookups += o.late
+		if c.Creds != "" {
+			credsCases++
 		}
-		for _, f := range st.findings {
+		if o.shared {
+			sharedJoined++
+		}
+		if c.end() == "deadline" && o.earlyLive {
+			dlLive++
+		}
+		// one sample per (part, end, credentials yes/no) of the largest input of its kind
+		full := c.Layers == 1<<len(layerNames)-1 && c.Part == "" || c.Part == "md" && c.MDNew == "ka+kb+authorization" && c.MDApp == "ka+kb+authorization" && (c.Creds == "" || c.Creds == "ka+kb+authorization") && c.Spelling == "mixed" && c.Layers == 1<<len(layerNames)-1
+		sk := fmt.Sprintf("%s|%s|%v", c.Part, c.end(), c.Creds != "")
+		if full && !sampled[sk] && c.Order == "up" && c.IC && c.Kind == "stream" && c.Base == "in-unary-handler" && (c.Deadline || c.Part == "md") {
+			sampled[sk] = true
+			samples = append(samples, map[string]interface{}{"case": c, "description": c.String(), "handler_phases_completed": o.phases,
+				"accessor_lookups_after_context_end": o.late, "caller_outgoing_md": o.wantIn, "credentials_md": o.credsWant,
+				"caller_and_credentials_values_seen_joined_on_a_shared_key": o.shared, "clauses_violated": len(o.findings)})
+		}
+		for _, f := range o.findings {
 			k := groupKey(c, f)
 			g := groups[k]
 			if g == nil {
-				g = &group{first: c, detail: fmt.Sprintf("%s seen in the %s [%s]: %s", f.Clause, f.Where, c, f.Detail), wheres: map[string]bool{}}
+				g = &group{first: c, detail: fmt.Sprintf("%s seen in the %s at instant %q [%s]: %s", f.Clause, f.Where, f.When, c, f.Detail), wheres: map[string]bool{}, rank: len(instants)}
 				groups[k] = g
 				order = append(order, k)
 			}
 			g.n++
 			g.wheres[f.Where] = true
+			if r := instantRank(f.When); f.When != "" && r < g.rank {
+				g.rank = r
+			} else if f.When == "" {
+				g.rank = 0
+			}
 			if c.Base == "background" {
 				g.plain = true
 			}
@@ -277,19 +550,42 @@ func main() {
 		g := groups[k]
 		rep.Violation(g.fingerprint(k), fmt.Sprintf("%s [%d observations over the grammar; the replay is the simplest case]", g.detail, g.n), g.first)
 	}
+	dlLayerSets := "the layer sets {none, each single layer, all nine} (sweep: every case has to wait for a real deadline)"
+	if thorough {
+		dlLayerSets = "all 2^9 layer subsets"
+	}
 	os.Exit(rep.Finish("exploration", map[string]interface{}{
 		"evaluations":         evals,
 		"distinct_nontrivial": len(distinct),
-		"rule": "all 2^9 subsets of caller-context layers (string key, struct key, NewOutgoingContext metadata, incoming metadata, peer, enclosing ServerTransportStream, AppendToOutgoingContext pairs, context-typed value, peer with AuthInfo) x 2 stacking orders x 3 base contexts (background, inside an in-process unary handler, inside an in-process stream handler) " +
-			"x deadline/none x unary/stream x with/without channel-level server interceptors, each as a real call on a fresh inprocgrpc.Channel with the oracle inside the handler " +
-			"(and the interceptor). A case is non-trivial when the caller context carried at least one value the library has to block or replace (a layer, or the enclosing handler's own " +
-			"context) and the handler completed all three phases (static checks; then, while the handler is parked, the caller mutates in place / Set / delete on the very map it gave to NewOutgoingContext and the handler re-reads its incoming metadata; then cancellation observed); distinct by all parameters.",
+		"grammar": map[string]interface{}{
+			"context_grammar_cases":    len(ctxCases),
+			"deadline_expiry_cases":    len(dlCases),
+			"metadata_sweep_cases":     len(mdCases),
+			"instants_per_case":        "handler: entry, parked, context-end (after-cancel / after-deadline), after the caller's call returned; interceptor: entry, after the handler returned",
+			"lookups_per_late_instant": lookups,
+		},
+		"nontrivial_by_end_of_context":                          byEnd,
+		"accessor_lookups_after_context_end":                    lateLookups,
+		"cases_with_per_rpc_credentials":                        credsCases,
+		"cases_where_handler_saw_caller_and_credentials_joined": sharedJoined,
+		"deadline_cases_with_entry_and_parked_before_expiry":    dlLive,
+		"rule": "CONTEXT GRAMMAR, fully crossed: all 2^9 subsets of caller-context layers (string key, struct key, NewOutgoingContext metadata, incoming metadata, peer, enclosing ServerTransportStream, AppendToOutgoingContext pairs, context-typed value, peer with AuthInfo) x 2 stacking orders x 3 base contexts (background, inside an in-process unary handler, inside an in-process stream handler) " +
+			"x unary/stream x with/without channel-level server interceptors x {no credentials, grpc.PerRPCCredentials returning a key the caller's metadata shares and one in mixed case that it does not} x {far deadline, none} x end of the call's context {the caller cancels while the handler runs; the handler returns a response and a goroutine it started keeps the context}. " +
+			"DEADLINE EXPIRY: the same with a real short deadline of the caller that passes while the handler waits on ctx.Done(), over " + dlLayerSets + ". " +
+			"METADATA SWEEP, around each base case (3 bases x unary/stream x interceptors x other seven layers none/all): every triple of subsets of the key alphabet {ka (one value per source), kb (two values from NewOutgoingContext, two appended pairs, one from the credentials), authorization} given to NewOutgoingContext, to AppendToOutgoingContext and returned by the per-RPC credentials (9 = 8 subsets incl. credentials returning nothing + no credentials option) x lower/mixed-case spelling (each source spells a key differently) x 2 stacking orders (NewOutgoingContext after AppendToOutgoingContext discards the appended pairs). " +
+			"Each case is a real call on a fresh inprocgrpc.Channel. The whole oracle (no caller value visible, incoming metadata = caller's outgoing joined with the credentials', in-process peer, own transport stream, caller's deadline, not done before the caller's context, ClientContext = the caller's context with all its values, chain of client contexts for nested calls) is evaluated inside the handler at entry, again while parked after the caller mutated in place / Set / deleted on the very map it gave to NewOutgoingContext, again after ctx.Done() (cancel or deadline), and again after the gate 'the caller's Invoke/RecvMsg has returned'; inside the interceptor at entry and after the handler returned. " +
+			"At every instant after the end of the context the accessors are looked up `lookups` times with runtime.Gosched() in between before the full oracle runs (work the library left to goroutines gets the processor; no clock). " +
+			"A case is non-trivial when the caller context carried at least one thing the library has to block, replace or join (a layer, credentials, or the enclosing handler's own context) and the handler completed all four phases; distinct by all parameters.",
 		"samples":                        samples,
 		"exhaustive":                     true,
 		"reference_runs_on_grpc_bufconn": refRuns,
 	}, []string{
-		"the deadline is one hour ahead: equality of deadlines is checked, never elapsed time; 30 s timers are hang guards only",
+		"the far deadline is one hour ahead and equality of deadlines is checked, never elapsed time; the short deadline (8 ms; 80 ms over bufconn) only has to pass, nothing is compared with it: the handler waits on ctx.Done(), and a context that is done earlier than expected is judged by the state of the caller's own context read afterwards; 30 s timers are hang guards only",
+		"state that the library drops asynchronously after the end of the call's context is made visible by a bounded number of scheduler yields between look-ups and by the gate 'the caller's call has returned', not by waiting for a time",
+		"the deadline-expiry dimension is crossed with all layer subsets only in the thorough tier; in the quick tier it is swept over the layer sets none / each single layer / all; the metadata key-set dimension is swept around the base cases (layers other than the two metadata layers none or all), with end of context = cancel",
+		"on a key that caller and credentials both supply the order between the caller's values and the credentials' is not demanded (grpc-go sends the credentials' first, the in-process channel appends them); the caller's values must keep their order",
 		"metadata aliasing can only be probed through the public metadata API (which copies) and through the map the caller gave to NewOutgoingContext",
 		"'an in-process peer' is taken to be the peer (address and auth info) that the same call reports to the caller through grpc.Peer",
+		"ClientContext may return a context derived from the caller's (the channel adds cancellation and the credentials' metadata); what is demanded is that every value of the caller's context, its peer, transport stream, incoming and outgoing metadata are reachable through it at every instant",
 	}))
 }
